@@ -2305,8 +2305,11 @@ As a workaround use x.as_expr() %s y.as_expr()""" % op)
             def psinc(M, arg):
                 """Periodic sinc."""
 
+                if arg == np.round(arg):
+                    # Removable singularity; the limit is (-1)**(arg * (M - 1))
+                    return 1.0 if arg * (M - 1) % 2 == 0 else -1.0
                 D = np.sin(np.pi * arg)
-                return 1.0 if D == 0 else np.sin(M * np.pi * arg) / (M * D)
+                return np.sin(M * np.pi * arg) / (M * D)
 
             def trap(arg, alpha):
 
